@@ -93,7 +93,7 @@ def make_oracle(F):
         if f.get("kind") == "def" and is_comp_ty(ret) and not inline_pred(k) and (k.startswith("mahf::") or k.startswith("<mahf::")):
             kind = "condition" if "dyn mahf::conditions::Condition<" in ret else "component"
             ty = f.get("self_adt") or k
-            leaf = Agg("leaf", None, None, [Leaf(kind, ty, k, [a for a in args], f.get("gargs"), t.get("line"))])
+            leaf = Agg("leaf", None, None, [Leaf(kind, ty, k, [a for a in args], f.get("cgargs") or f.get("gargs"), t.get("line"))])
             if ret.startswith("core::result::Result<"):
                 # constructors may reject parameters: both outcomes are explored, only Ok trees are analysed
                 return TOP if False else ok(leaf)
@@ -108,7 +108,7 @@ def make_oracle(F):
                 to_tree(F, {}, Agg("adt", "?", None, []))      # (fills F._leaf_kinds)
                 kinds_ = getattr(F, "_leaf_kinds", {})
             if adt_ in kinds_ and not adt_.startswith(CF) and f.get("self_adt") == adt_:
-                leaf = Agg("leaf", None, None, [Leaf(kinds_[adt_], adt_, k, [a for a in args], f.get("gargs"), t.get("line"))])
+                leaf = Agg("leaf", None, None, [Leaf(kinds_[adt_], adt_, k, [a for a in args], f.get("cgargs") or f.get("gargs"), t.get("line"))])
                 return ok(leaf) if ret.startswith("core::result::Result<") else leaf
         return TOP
     return oracle
